@@ -18,6 +18,8 @@ DECIDED = ('(a) the three places that decide whether a tree node still carries s
            'named routes incl. all names of a removed route, hooks); (e) child list and index string of a node change '
            'together, including _split and _try_merge; (f) hooks are collected in descent order with their path position, '
            'invoked in that order with the matched prefix, and the look-back restores copies.')
+DECIDED_MORE = ("Also: no rejection after the first store into a route's method table; the PARAMS slot is written only when a route is stored; a memo kept by resolve() is dropped by every tree-editing method.")
+DECIDED = DECIDED + ' ' + DECIDED_MORE
 NOT_DECIDED = ('equality with a freshly built router over all edit histories (correctness of node splitting / merging beyond '
                'the pairing rules); prefix-wildcard removal of hooks (specified for routes only).')
 ASSUMPTIONS = ['list/dict operations behave as in CPython']
